@@ -41,6 +41,11 @@ type aModel struct {
 	sched    []*aChange
 	forced   []*aChange
 	anyForce bool
+	// loose: a finalisation went past the announcing block of a pending forced change. What that does
+	// to the pending change is not determined by the statement, so from then on only the invariants
+	// that hold under every reading are checked (checkAuthSetLoose)
+	loose      bool
+	ignoredIDs map[uint64]bool // authority ids of scheduled changes announced together with a forced change
 }
 
 func anc(a, b *aBlock) bool { // a is b or an ancestor of b
@@ -117,6 +122,9 @@ func runAuthSet(k *kernel.K) {
 		pendingNotify = nil
 	}
 
+	// swarm knob: in a fifth of the runs finality may also move past the announcing block of a pending
+	// forced change; such a run is checked against the loose invariants only from that point on
+	freeFinality := k.Bool(1, 5, "knob-free-finality")
 	steps := k.Range(10, 50, "steps")
 	for st := 0; st < steps; st++ {
 		switch a := k.Choose(10, "action"); {
@@ -152,8 +160,29 @@ func runAuthSet(k *kernel.K) {
 			case c == 7 && !hasForcedPending && num > lastSchedEff:
 				nextAuth += 3
 				b.forced = &aChange{at: b, delay: uint(k.Choose(3, "delay")), auths: authSet(nextAuth, nextAuth+1), bestFin: uint32(fin.rb.Number)}
-				dg.Add(grandpaDigest(types.GrandpaForcedChange{BestFinalizedBlock: b.forced.bestFin, Auths: b.forced.auths, Delay: uint32(b.forced.delay)}))
+				forcedItem := grandpaDigest(types.GrandpaForcedChange{BestFinalizedBlock: b.forced.bestFin, Auths: b.forced.auths, Delay: uint32(b.forced.delay)})
 				what = fmt.Sprintf(" +forced(delay %d)", b.forced.delay)
+				if k.Bool(1, 3, "also-scheduled-digest") {
+					// the same header also announces a scheduled change: Substrate looks for the forced change
+					// first and then ignores the block's scheduled change, wherever the two items sit
+					ignored := grandpaDigest(types.GrandpaScheduledChange{Auths: authSet(nextAuth+40, nextAuth+41, nextAuth+42), Delay: uint32(k.Choose(3, "ignored-delay"))})
+					if m.ignoredIDs == nil {
+						m.ignoredIDs = map[uint64]bool{}
+					}
+					m.ignoredIDs[uint64(nextAuth+40)] = true
+					if k.Bool(1, 2, "scheduled-item-first") {
+						dg.Add(ignored)
+						dg.Add(forcedItem)
+						what += " +scheduled-item-before-it(ignored)"
+					} else {
+						dg.Add(forcedItem)
+						dg.Add(ignored)
+						what += " +scheduled-item-after-it(ignored)"
+					}
+					k.Probe("forced-and-scheduled-in-one-header")
+				} else {
+					dg.Add(forcedItem)
+				}
 			}
 			h := types.NewHeader(p.rb.Hash, common.Hash{salt}, common.Hash{}, num, dg)
 			b.rb = &cu.RefBlock{Hash: h.Hash(), Parent: p.rb.Hash, Number: num, Header: h}
@@ -238,13 +267,22 @@ func runAuthSet(k *kernel.K) {
 			// forced change is not determined by the statement)
 			for _, c := range m.forced {
 				if !c.applied && !c.dead && anc(c.at, t) {
+					if freeFinality {
+						m.loose = true
+						k.Probe("finalised-past-a-pending-forced-change")
+						continue
+					}
 					t = c.at.parent
 				}
 			}
 			if t == fin || !anc(fin, t) {
 				continue
 			}
-			if err := bs.SetFinalisedHash(t.rb.Hash, uint64(st+1), m.setID); err != nil {
+			finSet := m.setID
+			if m.loose {
+				finSet, _ = gs.GetCurrentSetID() // the model no longer knows the set id
+			}
+			if err := bs.SetFinalisedHash(t.rb.Hash, uint64(st+1), finSet); err != nil {
 				k.Violate("C17", "finalise", "valid-finalisation-refused", "%v", err)
 				k.Stop()
 			}
@@ -274,7 +312,30 @@ func runAuthSet(k *kernel.K) {
 	checkAuthSet(k, gs, m)
 }
 
+// checkAuthSetLoose: what holds whatever a finalisation past a pending forced change does - every set
+// up to the current one has authorities, and none of them is the list of a scheduled change that was
+// announced in the same header as a forced change (Substrate ignores that one, wherever it is listed).
+func checkAuthSetLoose(k *kernel.K, gs *state.GrandpaState, m *aModel) {
+	cur, err := gs.GetCurrentSetID()
+	if err != nil {
+		k.Violate("C23", "current-set-id", "current-set-id-unreadable", "%v", err)
+	}
+	for id := uint64(0); id <= cur; id++ {
+		got, err := gs.GetAuthorities(id)
+		if err != nil {
+			k.Violate("C23", "authorities", "authorities-missing", "authorities of set %d missing: %v", id, err)
+		}
+		if len(got) > 0 && m.ignoredIDs[got[0].ID] {
+			k.Violate("C23", "authorities", "scheduled-change-of-a-forced-change-block-applied", "set %d holds the authorities of a scheduled change that was announced in the same header as a forced change (first authority id %d)", id, got[0].ID)
+		}
+	}
+}
+
 func checkAuthSet(k *kernel.K, gs *state.GrandpaState, m *aModel) {
+	if m.loose {
+		checkAuthSetLoose(k, gs, m)
+		return
+	}
 	cur, err := gs.GetCurrentSetID()
 	if err != nil || cur != m.setID {
 		k.Violate("C23", "current-set-id", "current-set-id-differs", "current set id is %d (%v), Substrate's rules give %d", cur, err, m.setID)
